@@ -67,5 +67,26 @@ theorem C07_abandoned_block_untouched (ops : List Op) (h : FreshIds ops) (b : Na
     owners (run ops) b = 0 ∧ ∀ i, i ∈ k.ids → i ∉ dropIds (run ops).mem.log :=
   ⟨leaked_unowned (inv_run ops) hk hlk, live_values_not_destroyed ops h b k hk hlv⟩
 
+/-! ### allocator failure
+
+`try_allocate_for_layout` checks the pointer returned by `alloc` for null *before* anything is written
+through it and reports `Err(())`; `allocate_for_layout` turns that into `handle_alloc_error(layout)`,
+which never returns.  In the model an allocation that fails is therefore an outcome with NO effect on
+memory; the fault-enumeration pass of the check (one child process per constructor and per allocation
+index) ties this to the code: the process must end through the allocation-error path. -/
+
+/-- allocation as the constructors perform it, with an allocator that may report failure -/
+def allocOrFail (m : Mem) (fails : Bool) (lay : LY.Layout) (hdr : Option Item) (rl : Option Nat)
+    (el : List (Option Item)) : Except Mem (Mem × Nat) :=
+  if fails then .error m else .ok (allocBlock m lay hdr rl el)
+
+/-- **on allocation failure nothing is written**: the memory handed to `handle_alloc_error` is the
+memory before the call, bit for bit -/
+theorem C07_alloc_failure_no_write (m : Mem) (lay : LY.Layout) (hdr : Option Item) (rl : Option Nat)
+    (el : List (Option Item)) : allocOrFail m true lay hdr rl el = .error m := rfl
+
+theorem C07_alloc_success_is_allocBlock (m : Mem) (lay : LY.Layout) (hdr : Option Item) (rl : Option Nat)
+    (el : List (Option Item)) : allocOrFail m false lay hdr rl el = .ok (allocBlock m lay hdr rl el) := rfl
+
 end C07
 end M1
